@@ -32,15 +32,15 @@ const char *prop_id() { return "C02"; }
 static double c02_budget(const vorbis_info &vi, long hdr_bytes, bool decoder) {
   double b = 262144 + 16.0 * (double)hdr_bytes;
   const codec_setup_info *ci = (const codec_setup_info *)vi.codec_setup; if (!ci) return b;
-  b += 1 << 20;
+  b += 1 << 19;
   double books = 0, maxbook = 0; int nb = ci->books < 0 ? 0 : ci->books > 256 ? 256 : ci->books;
   for (int i = 0; i < nb; i++) { const static_codebook *c = ci->book_param[i]; double e, d;   // (a successful vorbis_synthesis_init releases the static books and keeps the decode books)
     if (c) { e = (double)c->entries; d = (double)c->dim; } else if (ci->fullbooks) { e = (double)ci->fullbooks[i].entries; d = (double)ci->fullbooks[i].dim; } else continue;
     if (e < 0 || d < 0) continue;
-    double one = e * (d * 12.0 + 48.0) + 600000.0; books += one; if (one > maxbook) maxbook = one; }
+    double one = e * (d * 12.0 + 48.0) + 16384.0; books += one; if (one > maxbook) maxbook = one; }
   double bs1 = (double)ci->blocksizes[1], ch = (double)(vi.channels > 0 ? vi.channels : 1); if (bs1 < 64) bs1 = 64; if (bs1 > 8192) bs1 = 8192;
-  b += 4.0 * books;
-  if (decoder) b += 4.0 * (64.0 * maxbook + ch * bs1 * 64.0 + ch * 8192.0 * 32.0 + 64.0 * bs1 * 32.0);
+  b += 2.0 * books;
+  if (decoder) b += 2.0 * (64.0 * maxbook + ch * bs1 * 64.0 + ch * 8192.0 * 32.0 + 64.0 * bs1 * 32.0);
   return b;
 }
 
